@@ -33,6 +33,8 @@ func battery(v *ds.VMValue) string {
 		"x.keys()", "x.sum()", "-x", "x ? 1 : 2", "x ?? 3", "`{x}`", "x[0:1]", "toStr(x)", "repr(x)", "toBool(x)", "typeId(x)", "dir(x)",
 		"x.kh()", "[x, x]", "{'k': x}", "x && 1", "x || 1", "y = x; y", "x.compute()", "&z = x; z", "toInt(x)", "abs(x)",
 		"x.a.b", "x[0][0]", "x.a(1)", "x[0]()", "x.items()", "x.values()", "x.pop()", "x.push(1)", "x.shuffle()", "x.rand()", "x * 2",
+		// the raw value (not its evaluation) and members of a member
+		"&x.a", "&x.a.b", "&x.a = 1", "&x", "&x.compute()", "x[0].a", "x['a'].a", "x.a.a", "x[0].compute()", "x.a.compute()", "x[0].a = 2", "&x == &x", "[&x, &x]", "{'k': &x}.k.a",
 		// the same value used again: whatever the first use cached inside it must be as harmless as the first use was
 		"x()", "x(1)", "x(1, 2)", "x(5)", "x", "x.compute()", "x(0, 0)"}
 	for _, s := range scripts {
@@ -98,6 +100,44 @@ func jsonMapLine(t []string) string {
 		return true
 	})
 	return "ok " + canonAttrs(m) + " battery=" + bat
+}
+
+// jsonmaprun <hexjson> <hexscript>... : restore a whole variable map into one VM (budget 30000) and run the scripts on it, in order;
+// "err" when the map does not decode, else one "ok <value>" / "err <hexmsg>" / "panic ..." per script
+func jsonMapRunLine(t []string) string {
+	if len(t) < 3 {
+		return "bad-op"
+	}
+	b, err := hex.DecodeString(strings.TrimPrefix(t[1], "-"))
+	if err != nil {
+		return "bad-op"
+	}
+	m := &ds.ValueMap{}
+	if e := json.Unmarshal(b, m); e != nil {
+		return "err"
+	}
+	vm, _ := newVM(ds.RollConfig{OpCountLimit: 30000, EnableDiceWoD: true, EnableDiceCoC: true}, "000102030405060708090a0b0c0d0e0f")
+	m.Range(func(k string, v *ds.VMValue) bool {
+		if v != nil {
+			vm.Attrs.Store(k, v)
+		}
+		return true
+	})
+	var outs []string
+	for _, h := range t[2:] {
+		src, ok := unhx(h)
+		if !ok {
+			return "bad-op"
+		}
+		outs = append(outs, safely(func() string {
+			if err := vm.Run(src); err != nil {
+				return "err " + hx(err.Error())
+			}
+			_ = vm.GetDetailText()
+			return "ok " + vm.Ret.ToString()
+		}))
+	}
+	return strings.Join(outs, " | ")
 }
 
 // jsonenc <cfg> <hexprog> : run a program, then encode Ret; "err-run" | "encerr <hexmsg>" | "ok <hexjson> back=<canon of decode(encode)> orig=<canon>"
@@ -200,6 +240,7 @@ func init() {
 	handlers["jsonmapm"] = jsonMapMLine
 	handlers["jsondec"] = jsonDecLine
 	handlers["jsonmap"] = jsonMapLine
+	handlers["jsonmaprun"] = jsonMapRunLine
 	handlers["jsonenc"] = jsonEncLine
 	handlers["snap"] = snapLine
 }
